@@ -169,17 +169,17 @@ Print Assumptions C10_prop_checker_sound.
 
 (** the same for the checker of group "pool" (a pool configuration serving any list of client
     requests), provided no request hangs - automatic when the pool has a timeout *)
-Theorem C10_pool_checker_sound : forall retry p timeout cb fcodes (xs : list xs_t),
+Theorem C10_pool_checker_sound : forall retry p timeout cb fcodes smax (xs : list xs_t),
   (retry = true -> valid p) ->
-  let c := model_pool_case retry p timeout cb fcodes xs in
+  let c := model_pool_case retry p timeout cb fcodes smax xs in
   (forall x, In x xs -> po_result (pool_handle (pool_of c) true (model_pool_rq x)) <> PHang) ->
   prop_pool c = true.
 Proof. exact prop_pool_sound. Qed.
 Print Assumptions C10_pool_checker_sound.
 
-Theorem C10_pool_checker_sound_with_timeout : forall retry p timeout cb fcodes (xs : list xs_t),
+Theorem C10_pool_checker_sound_with_timeout : forall retry p timeout cb fcodes smax (xs : list xs_t),
   (retry = true -> valid p) -> 0 < timeout ->
-  prop_pool (model_pool_case retry p timeout cb fcodes xs) = true.
+  prop_pool (model_pool_case retry p timeout cb fcodes smax xs) = true.
 Proof. exact prop_pool_sound_timeout. Qed.
 Print Assumptions C10_pool_checker_sound_with_timeout.
 
